@@ -1,45 +1,64 @@
 // Engine `dispatch` (C04).  Line protocol: see lean/Driver/DispatchEngine.lean.
 //
-//   D <table> <locsize> <msg>;<msg>;...  [ignored]
+//   D <table> <locsize>+<slack> <msg>;<msg>;...  [ignored]
+//   R <table> <locsize>+<slack> <msg>;<msg>;...  [ignored]
 //
-// The table is built dynamically: a subclass of rtosc::Ports (`Ports({})`, push_back,
+// D: the table is built dynamically: a subclass of rtosc::Ports (`Ports({})`, push_back,
 // the protected refreshMagic()), names in exact-size heap blocks, sub-tables nested.
-// `T<d>c[` / `T<d>m[`: the table that is dispatched is a copy built by the library's own
-// ClonePorts (each port with its callback, the default handler as "*") resp. MergePorts
-// (first half + second half) constructor — only used for tables with pairwise different names.
-// Callbacks are plain logging callbacks (the sugar callbacks dereference data.loc and
-// cannot be dispatched without a location buffer):
+//   T<d>c[src]{i.j...}: the table that is dispatched is built by the library's ClonePorts from
+//     the source table `src` and the clone list {{src[i].name, cb}, {src[j].name, cb}, ...}
+//     (+ {"*", default handler} for d = 1).  The callbacks of the clone list are the logging
+//     callbacks `P<position in the clone list>`; the ports (and the default handler) of the
+//     SOURCE table have callbacks of their own kind (`X...`) that must never be invoked.
+//   T<d>m[all]{n1.n2...}: built by the library's MergePorts from the tables made of the
+//     first n1, the next n2, ... entries.  A port that must be dropped (an earlier port has
+//     the same name) has an `X` callback, the others log `P<position among the kept ones>`.
+// Callbacks are plain logging callbacks:
 //   * a port without sub-table logs what it was handed;
 //   * a port with a sub-table logs and then does what rRecurCb does:
 //       data.obj = <child object>; SNIP; <child table>.dispatch(msg, data);
 //   * a default handler logs.
+// R: a static tree built with the library's own recursion macros rRecur / rRecurs / rRecurp /
+// rRecursp (port-sugar.h); only its ports without sub-table log, and they print the object
+// they were handed as the chain of (port index, element index) that leads to it.
 // Every message is dispatched twice on fresh RtData objects: with a location buffer of
-// <locsize> bytes (exact-size heap block) and without.
-// Only observables are printed (callback log, loc, port, matches) — never the hash tables.
+// <locsize> bytes (exact-size heap block) and without.  The message lives in an exact-size
+// heap block of message size + <slack> bytes.
+// Only observables are printed, in canonical form (see the driver) — never the hash tables.
 #include "common.h"
 #include <rtosc/rtosc.h>
 #include <rtosc/ports.h>
 #include <rtosc/port-sugar.h>
 #include <memory>
 #include <functional>
+#include <algorithm>
+#include <cstdarg>
 using namespace vh;
 
-static const size_t SLACK = 32;
+struct Log {
+    std::vector<std::string> calls;
+    std::vector<std::string> ppaths;           // paths of the invoked ports (kind P)
+    const char *base = nullptr;
+    bool sugar = false;
+};
+static Log *g_log = nullptr;
 
-struct Log { std::string s; bool first = true; const char *base = nullptr; };
+// ---------------------------------------------------------------------------------------
+// D: dynamic tables
+// ---------------------------------------------------------------------------------------
+struct Ast;
+struct AEntry { bool node = false; bytes name; std::unique_ptr<Ast> child; };
+struct Ast { bool dflt = false; char mode = 'd'; std::vector<AEntry> es; std::vector<size_t> nums; };
 
-struct TNode;
 struct DynPorts : rtosc::Ports {
     DynPorts() : rtosc::Ports({}) {}
     void rebuild() { refreshMagic(); }
 };
 struct TNode {
-    DynPorts ports;                            // the table as written in the op line
-    // the table that is dispatched: `ports` itself, or a copy of it built by the library's
-    // ClonePorts / MergePorts constructors (which rebuild the lookup tables)
-    std::unique_ptr<rtosc::Ports> built;
-    DynPorts half1, half2;
-    rtosc::Ports *use = nullptr;
+    DynPorts src;                              // mode d: the table; mode c: the source table
+    std::vector<std::unique_ptr<DynPorts>> parts;   // mode m: the tables that are merged
+    std::unique_ptr<rtosc::Ports> built;       // what ClonePorts / MergePorts made
+    rtosc::Ports *use = nullptr;               // the table that is dispatched
     std::string path;                          // "r" for the root, else indices joined by '.'
     std::vector<std::unique_ptr<TNode>> kids;
     std::vector<std::unique_ptr<Exact>> names;
@@ -62,8 +81,6 @@ template <> rtosc::Ports *clone_sw<0>(const rtosc::Ports &src, const std::vector
     return new rtosc::ClonePorts(src, {});
 }
 
-static Log *g_log = nullptr;
-
 static TNode *g_root = nullptr;
 
 // the path of the port a pointer designates (searched in the whole tree), "" if none
@@ -84,31 +101,51 @@ static std::string show_port(const rtosc::Port *p) {
     return "P" + (r.empty() ? std::string("?") : r);
 }
 
-static void log_call(char kind, const std::string &who, const char *m, rtosc::RtData &d) {
-    Log &L = *g_log;
-    if (!L.first) L.s += ";";
-    L.first = false;
-    L.s += kind;
-    L.s += who;
-    L.s += "@" + std::to_string((long)(m - L.base)) + ",";
-    L.s += d.loc ? hexs(d.loc) : std::string("NULL");
-    L.s += ",";
-    L.s += d.obj ? ((TNode *)d.obj)->path : std::string("?");
-    L.s += ",";
-    L.s += show_port(d.port);
+static std::string strip_slash(std::string hex) {
+    if (hex.size() >= 2 && hex.compare(hex.size() - 2, 2, "2f") == 0) hex.erase(hex.size() - 2);
+    return hex.empty() ? std::string("-") : hex;
 }
 
-// parse T<d>[entry,...]; returns position behind the table or npos
-static size_t parse_table(const std::string &s, size_t i, TNode &t, const std::string &path) {
-    t.path = path;
+// kind: P port, D default handler, X a callback that belongs to a source table
+static void log_call(char kind, const std::string &who, const char *m, rtosc::RtData &d, bool node) {
+    Log &L = *g_log;
+    std::string s;
+    s += kind;
+    s += who;
+    s += "@" + std::to_string((long)(m - L.base)) + ",";
+    if (!d.loc) s += "NULL";
+    else s += node ? strip_slash(hexs(d.loc)) : hexs(d.loc);
+    s += ",";
+    s += d.obj ? ((TNode *)d.obj)->path : std::string("?");
+    s += ",";
+    s += kind == 'D' ? std::string("*") : show_port(d.port);
+    L.calls.push_back(s);
+    if (kind == 'P') L.ppaths.push_back(who);
+}
+
+static bool parse_nums(const std::string &s, size_t &i, std::vector<size_t> &out) {
+    if (i >= s.size() || s[i] != '{') return false;
+    ++i;
+    while (i < s.size() && s[i] != '}') {
+        if (s[i] == '.') { ++i; continue; }
+        if (!isdigit((unsigned char)s[i])) return false;
+        size_t v = 0;
+        while (i < s.size() && isdigit((unsigned char)s[i])) v = v * 10 + (s[i++] - '0');
+        out.push_back(v);
+    }
+    if (i >= s.size()) return false;
+    ++i;
+    return true;
+}
+
+// parse T<d>[c|m][entry,...][{...}]; returns position behind the table or npos
+static size_t parse_ast(const std::string &s, size_t i, Ast &a) {
     if (i + 2 >= s.size() || s[i] != 'T') return std::string::npos;
-    bool dflt = s[i + 1] == '1';
-    char mode = 'd';                           // d: as written, c: via ClonePorts, m: via MergePorts
+    a.dflt = s[i + 1] == '1';
     i += 2;
-    if (s[i] == 'c' || s[i] == 'm') mode = s[i++];
+    if (s[i] == 'c' || s[i] == 'm') a.mode = s[i++];
     if (i >= s.size() || s[i] != '[') return std::string::npos;
     ++i;
-    size_t idx = 0;
     while (i < s.size() && s[i] != ']') {
         if (s[i] == ',') { ++i; continue; }
         char k = s[i++];
@@ -117,77 +154,271 @@ static size_t parse_table(const std::string &s, size_t i, TNode &t, const std::s
         while (j < s.size() && hexval(s[j]) >= 0) ++j;
         std::string hx = s.substr(i, j - i);
         if (hx.empty() && j < s.size() && s[j] == '-') { hx = "-"; ++j; }
-        bytes nm;
-        if (!unhex(hx, nm)) return std::string::npos;
-        nm.push_back(0);
-        t.names.emplace_back(new Exact(nm));
-        const char *name = t.names.back()->c();
-        std::string ppath = (path == "r" ? std::string("") : path + ".") + std::to_string(idx);
+        AEntry e;
+        if (!unhex(hx, e.name)) return std::string::npos;
         i = j;
-        if (k == 'L') {
-            t.kids.emplace_back(nullptr);
-            t.ports.ports.push_back({name, "", nullptr,
-                [ppath](const char *m, rtosc::RtData &d) { log_call('P', ppath, m, d); }});
-        } else {
-            std::unique_ptr<TNode> child(new TNode);
-            i = parse_table(s, i, *child, ppath);
+        if (k == 'N') {
+            e.node = true;
+            e.child.reset(new Ast);
+            i = parse_ast(s, i, *e.child);
             if (i == std::string::npos) return i;
-            TNode *c = child.get();
-            t.kids.push_back(std::move(child));
-            t.ports.ports.push_back({name, "", c->use,
-                [ppath, c](const char *msg, rtosc::RtData &data) {
-                    log_call('P', ppath, msg, data);
-                    data.obj = c;
-                    SNIP
-                    c->use->dispatch(msg, data);
-                }});
         }
-        ++idx;
+        a.es.push_back(std::move(e));
     }
     if (i >= s.size()) return std::string::npos;
-    std::string tp = path;
-    std::function<void(const char *, rtosc::RtData &)> dcb =
-        [tp](const char *m, rtosc::RtData &d) { log_call('D', tp, m, d); };
-    t.use = &t.ports;
-    if (mode == 'c' && t.ports.ports.size() <= 31) {
-        // ClonePorts(src, {{name, cb}..., {"*", default handler}})
-        std::vector<rtosc::ClonePort> v;
-        for (auto &p : t.ports.ports) v.push_back({p.name, p.cb});
-        if (dflt) v.push_back({"*", dcb});
-        t.ports.rebuild();
-        t.built.reset(clone_sw<32>(t.ports, v));
-        t.use = t.built.get();
-    } else if (mode == 'm') {
-        // MergePorts({&first half, &second half})
-        size_t h = t.ports.ports.size() / 2;
-        for (size_t j = 0; j < t.ports.ports.size(); ++j)
-            (j < h ? t.half1 : t.half2).ports.push_back(t.ports.ports[j]);
-        t.half1.rebuild();
-        t.half2.rebuild();
-        t.built.reset(new rtosc::MergePorts({&t.half1, &t.half2}));
-        if (dflt) t.built->default_handler = dcb;
-        t.use = t.built.get();
-    } else {
-        if (dflt) t.ports.default_handler = dcb;
-        t.ports.rebuild();
-    }
-    return i + 1;
+    ++i;
+    if (a.mode != 'd' && !parse_nums(s, i, a.nums)) return std::string::npos;
+    return i;
 }
 
+static std::string join_path(const std::string &path, size_t i) {
+    return (path == "r" ? std::string("") : path + ".") + std::to_string(i);
+}
+
+typedef std::function<void(const char *, rtosc::RtData &)> cb_t;
+
+static cb_t leaf_cb(char kind, const std::string &who) {
+    return [kind, who](const char *m, rtosc::RtData &d) { log_call(kind, who, m, d, false); };
+}
+static cb_t node_cb(const std::string &who, TNode *c) {
+    return [who, c](const char *msg, rtosc::RtData &data) {
+        log_call('P', who, msg, data, true);
+        data.obj = c;
+        SNIP
+        c->use->dispatch(msg, data);
+    };
+}
+
+static bool build(const Ast &a, TNode &t, const std::string &path) {
+    t.path = path;
+    size_t n = a.es.size();
+    // where each entry is expected in the table that is dispatched (-1: nowhere) — the
+    // documented behaviour of the two constructors, computed here independently
+    std::vector<long> res(n, -1);
+    if (a.mode == 'd') {
+        for (size_t i = 0; i < n; ++i) res[i] = (long)i;
+    } else if (a.mode == 'c') {
+        if (a.nums.size() > 31) return false;
+        for (size_t r = 0; r < a.nums.size(); ++r) {
+            size_t k = a.nums[r];
+            if (k >= n) return false;
+            size_t j = k;                      // the port ClonePorts picks: the last one with that name
+            for (size_t q = 0; q < n; ++q) if (a.es[q].name == a.es[k].name) j = q;
+            if (res[j] != -1) return false;
+            res[j] = (long)r;
+        }
+    } else {
+        size_t sum = 0;
+        for (size_t v : a.nums) sum += v;
+        if (sum != n || a.nums.empty() || a.nums.size() > 3) return false;
+        long kept = 0;
+        for (size_t i = 0; i < n; ++i) {
+            bool dup = false;
+            for (size_t q = 0; q < i; ++q) if (res[q] != -1 && a.es[q].name == a.es[i].name) dup = true;
+            if (!dup) res[i] = kept++;
+        }
+    }
+    std::vector<cb_t> cbs(n);
+    std::vector<rtosc::Ports *> subs(n, nullptr);
+    for (size_t i = 0; i < n; ++i) {
+        bytes nm = a.es[i].name;
+        nm.push_back(0);
+        t.names.emplace_back(new Exact(nm));
+        std::string ppath = res[i] >= 0 ? join_path(path, (size_t)res[i]) : "x" + join_path(path, i);
+        if (a.es[i].node) {
+            std::unique_ptr<TNode> child(new TNode);
+            if (!build(*a.es[i].child, *child, ppath)) return false;
+            subs[i] = child->use;
+            cbs[i] = res[i] >= 0 ? node_cb(ppath, child.get()) : leaf_cb('X', join_path(path, i));
+            t.kids.push_back(std::move(child));
+        } else {
+            t.kids.emplace_back(nullptr);
+            cbs[i] = leaf_cb(res[i] >= 0 ? 'P' : 'X', res[i] >= 0 ? ppath : join_path(path, i));
+        }
+    }
+    cb_t dcb = [path](const char *m, rtosc::RtData &d) { log_call('D', path, m, d, false); };
+    if (a.mode == 'd') {
+        for (size_t i = 0; i < n; ++i) t.src.ports.push_back({t.names[i]->c(), "", subs[i], cbs[i]});
+        if (a.dflt) t.src.default_handler = dcb;
+        t.src.rebuild();
+        t.use = &t.src;
+    } else if (a.mode == 'c') {
+        // the source: every callback is a source callback
+        for (size_t i = 0; i < n; ++i)
+            t.src.ports.push_back({t.names[i]->c(), "", subs[i], leaf_cb('X', join_path(path, i))});
+        t.src.default_handler = leaf_cb('X', path + "d");
+        t.src.rebuild();
+        std::vector<rtosc::ClonePort> v;
+        for (size_t r = 0; r < a.nums.size(); ++r) {
+            size_t j = 0;
+            for (size_t q = 0; q < n; ++q) if (res[q] == (long)r) j = q;
+            // the name is handed over as a string of its own, not the source's pointer
+            bytes cn = a.es[a.nums[r]].name;
+            cn.push_back(0);
+            t.names.emplace_back(new Exact(cn));
+            v.push_back({t.names.back()->c(), cbs[j]});
+        }
+        if (a.dflt) v.push_back({"*", dcb});
+        t.built.reset(clone_sw<32>(t.src, v));
+        t.use = t.built.get();
+    } else {
+        size_t at = 0;
+        for (size_t v : a.nums) {
+            t.parts.emplace_back(new DynPorts);
+            for (size_t q = 0; q < v; ++q, ++at)
+                t.parts.back()->ports.push_back({t.names[at]->c(), "", subs[at], cbs[at]});
+            t.parts.back()->default_handler = leaf_cb('X', path + "d");
+            t.parts.back()->rebuild();
+        }
+        if (t.parts.size() == 1) t.built.reset(new rtosc::MergePorts({t.parts[0].get()}));
+        else if (t.parts.size() == 2) t.built.reset(new rtosc::MergePorts({t.parts[0].get(), t.parts[1].get()}));
+        else t.built.reset(new rtosc::MergePorts({t.parts[0].get(), t.parts[1].get(), t.parts[2].get()}));
+        if (a.dflt) t.built->default_handler = dcb;
+        t.use = t.built.get();
+    }
+    return true;
+}
+
+// ---------------------------------------------------------------------------------------
+// R: the static tree made with the library's recursion macros
+// ---------------------------------------------------------------------------------------
+struct SLeaf { int level; static const rtosc::Ports ports; };
+struct SMid {
+    int pad0;                                  // no member shares the address of its object
+    SLeaf one; SLeaf arr[3]; SLeaf *ptr; SLeaf *parr[2]; int self;
+    static const rtosc::Ports ports;
+};
+struct STop {
+    int pad0;
+    SMid mid; SMid mids[4]; SMid *pm; SMid *pms[2]; SLeaf leafs[12]; int top;
+    static const rtosc::Ports ports;
+};
+
+// every object of the tree with the chain (port index[#element]) that leads to it
+static std::vector<std::pair<const void *, std::string>> g_objs;
+static std::string obj_chain(const void *p) {
+    for (auto &o : g_objs) if (o.first == p) return o.second;
+    return "?";
+}
+// "2#1.4#0" -> "2.4"
+static std::string strip_idx(const std::string &s) {
+    std::string r;
+    bool skip = false;
+    for (char c : s) {
+        if (c == '#') skip = true;
+        else if (c == '.') skip = false;
+        if (!skip) r += c;
+    }
+    return r;
+}
+static void sugar_log(const rtosc::Ports *tab, rtosc::RtData &d) {
+    Log &L = *g_log;
+    std::string obj = obj_chain(d.obj);
+    // which port of its table: the one d.port designates
+    long idx = -1;
+    for (size_t i = 0; i < tab->ports.size(); ++i) if (&tab->ports[i] == d.port) idx = (long)i;
+    std::string who = (obj == "r" ? std::string("") : strip_idx(obj) + ".") + (idx < 0 ? std::string("?") : std::to_string(idx));
+    std::string s = "P" + who + "@-,";
+    s += d.loc ? hexs(d.loc) : std::string("NULL");
+    s += "," + obj + ",P" + who;
+    L.calls.push_back(s);
+}
+template <int K> static void sleaf_cb(const char *, rtosc::RtData &d) { (void)K; sugar_log(&SLeaf::ports, d); }
+const rtosc::Ports SLeaf::ports = {
+    {"level:", "", nullptr, sleaf_cb<0>},
+    {"pan::i", "", nullptr, sleaf_cb<1>},
+    {"detunevalue", "", nullptr, sleaf_cb<2>},
+    {"x", "", nullptr, sleaf_cb<3>},
+};
+#define rObject SMid
+const rtosc::Ports SMid::ports = {
+    rRecur(one, "d"),
+    rRecurs(arr, 3, "d"),
+    rRecurp(ptr, "d"),
+    rRecursp(parr, 2, "d"),
+    {"self", "", nullptr, [](const char *, rtosc::RtData &d) { sugar_log(&SMid::ports, d); }},
+};
+#undef rObject
+#define rObject STop
+const rtosc::Ports STop::ports = {
+    rRecur(mid, "d"),
+    rRecurs(mids, 4, "d"),
+    rRecurp(pm, "d"),
+    rRecursp(pms, 2, "d"),
+    rRecurs(leafs, 12, "d"),
+    {"top:", "", nullptr, [](const char *, rtosc::RtData &d) { sugar_log(&STop::ports, d); }},
+};
+#undef rObject
+
+// the callbacks of the "name:" ports of rRecur (rRecurPtrCb) answer through RtData::reply
+struct SugarData : rtosc::RtData {
+    const rtosc::Ports *table_of_port() {
+        for (const rtosc::Ports *t : {&STop::ports, &SMid::ports, &SLeaf::ports})
+            for (auto &p : t->ports) if (&p == port) return t;
+        return &STop::ports;
+    }
+    void reply(const char *, const char *, ...) override { sugar_log(table_of_port(), *this); }
+    void reply(const char *) override { sugar_log(table_of_port(), *this); }
+};
+
+struct SWorld {
+    STop top;
+    SMid xm[3];                                // *pm, *pms[0], *pms[1]
+    SLeaf xl[8 * 3];                           // per SMid: *ptr, *parr[0], *parr[1]
+    size_t nl = 0;
+    void reg_leaf(SLeaf *l, const std::string &c) { g_objs.push_back({l, c}); }
+    void reg_mid(SMid *m, const std::string &c) {
+        g_objs.push_back({m, c});
+        // port indices of SMid::ports: 0 one/  1 one:  2 arr#3/  3 ptr/  4 parr#2/  5 self
+        reg_leaf(&m->one, c + ".0");
+        for (int k = 0; k < 3; ++k) reg_leaf(&m->arr[k], c + ".2#" + std::to_string(k));
+        m->ptr = &xl[nl++];
+        reg_leaf(m->ptr, c + ".3");
+        for (int k = 0; k < 2; ++k) { m->parr[k] = &xl[nl++]; reg_leaf(m->parr[k], c + ".4#" + std::to_string(k)); }
+    }
+    SWorld() {
+        g_objs.push_back({&top, "r"});
+        // port indices of STop::ports: 0 mid/  1 mid:  2 mids#4/  3 pm/  4 pms#2/  5 leafs#12/  6 top:
+        reg_mid(&top.mid, "0");
+        for (int k = 0; k < 4; ++k) reg_mid(&top.mids[k], "2#" + std::to_string(k));
+        top.pm = &xm[0];
+        reg_mid(top.pm, "3");
+        for (int k = 0; k < 2; ++k) { top.pms[k] = &xm[1 + k]; reg_mid(top.pms[k], "4#" + std::to_string(k)); }
+        for (int k = 0; k < 12; ++k) reg_leaf(&top.leafs[k], "5#" + std::to_string(k));
+    }
+};
+static SWorld *g_world = nullptr;
+
+static std::string ports_token(const rtosc::Ports &p) {
+    std::string s = "T0[";
+    bool first = true;
+    for (auto &q : p.ports) {
+        if (!first) s += ",";
+        first = false;
+        s += q.ports ? "N" : "L";
+        s += hexs(q.name);
+        if (q.ports) s += ports_token(*q.ports);
+    }
+    return s + "]";
+}
+
+// ---------------------------------------------------------------------------------------
+// messages
+// ---------------------------------------------------------------------------------------
 static bool known_tag(unsigned char t) { return t && strchr("ifcrmsSbhdtTFNI", t); }
 static size_t zero_arg_size(unsigned char t) {
     if (strchr("ifcrmsSb", t)) return 4;
     if (strchr("hdt", t)) return 8;
     return 0;
 }
-// message for (address, tags) with all-zero arguments, followed by SLACK zero bytes
-static void build_msg(const bytes &addr, const bytes &tags, bytes &out) {
+// message for (address, tags) with all-zero arguments, followed by `slack` zero bytes
+static void build_msg(const bytes &addr, const bytes &tags, size_t slack, bytes &out) {
     size_t n = addr.size() + (4 - addr.size() % 4);
     n += 1 + tags.size();
     n += 4 - n % 4;
     bool all_known = true;
     for (unsigned char t : tags) { n += zero_arg_size(t); all_known &= known_tag(t); }
-    out.assign(n + SLACK, 0);
+    out.assign(n + slack, 0);
     bool plain = true;
     for (unsigned char c : addr) if (!c) plain = false;
     if (all_known && plain) {
@@ -211,7 +442,47 @@ static void build_msg(const bytes &addr, const bytes &tags, bytes &out) {
     }
 }
 
-static std::string one_msg(TNode &root, size_t locsize, const std::string &tok) {
+static std::vector<int> split_path(const std::string &s) {
+    std::vector<int> v;
+    size_t i = 0;
+    while (i < s.size()) {
+        size_t j = s.find('.', i);
+        if (j == std::string::npos) j = s.size();
+        v.push_back(atoi(s.substr(i, j - i).c_str()));
+        i = j + 1;
+    }
+    return v;
+}
+// the invoked ports form one chain root -> ... -> leaf
+static bool is_chain(const Log &lg) {
+    std::vector<std::vector<int>> ps;
+    for (auto &p : lg.ppaths) ps.push_back(split_path(p));
+    std::stable_sort(ps.begin(), ps.end(), [](const std::vector<int> &a, const std::vector<int> &b) { return a.size() < b.size(); });
+    std::vector<int> prev;
+    for (auto &p : ps) {
+        if (p.size() != prev.size() + 1) return false;
+        if (!std::equal(prev.begin(), prev.end(), p.begin())) return false;
+        prev = p;
+    }
+    return true;
+}
+static std::string show_calls(Log &lg) {
+    std::sort(lg.calls.begin(), lg.calls.end());
+    std::string s = "[";
+    for (size_t i = 0; i < lg.calls.size(); ++i) s += (i ? ";" : "") + lg.calls[i];
+    return s + "]";
+}
+static std::string final_port(const Log &lg, const rtosc::Port *p) {
+    if (lg.sugar || !is_chain(lg)) return "*";
+    return show_port(p);
+}
+static std::string final_loc(const char *loc) {
+    if (!strcmp(loc, "") || !strcmp(loc, "/")) return "ok";
+    return hexs(loc);
+}
+
+template <class Data>
+static std::string one_msg(const rtosc::Ports &ports, void *rootobj, bool sugar, size_t locsize, size_t slack, const std::string &tok) {
     if (tok.size() < 2) return "bad-msg";
     bool base = tok[0] == 'B';
     size_t colon = tok.find(':');
@@ -219,47 +490,60 @@ static std::string one_msg(TNode &root, size_t locsize, const std::string &tok) 
     bytes addr, tags;
     if (!unhex(tok.substr(1, colon - 1), addr) || !unhex(tok.substr(colon + 1), tags)) return "bad-msg";
     bytes mb;
-    build_msg(addr, tags, mb);
+    build_msg(addr, tags, slack, mb);
     Exact M(mb);
     std::string out;
     {   // with location buffer
         Exact L(locsize, base ? 0xAA : 0x00);
-        rtosc::RtData d;
+        Data d;
         d.loc = L.c();
         d.loc_size = locsize;
-        d.obj = &root;
+        d.obj = rootobj;
         d.port = nullptr;
         Log lg;
         lg.base = M.c();
+        lg.sugar = sugar;
         g_log = &lg;
-        root.use->dispatch(M.c(), d, base);
+        ports.dispatch(M.c(), d, base);
         g_log = nullptr;
-        out += "[" + lg.s + "]m" + std::to_string(d.matches) + "p" + show_port(d.port) + "l" + hexs(d.loc);
+        out += show_calls(lg) + "m" + std::to_string(d.matches) + "p" + final_port(lg, d.port) + "l" + final_loc(d.loc);
     }
     out += "/";
     {   // without
-        rtosc::RtData d;
+        Data d;
         d.loc = nullptr;
         d.loc_size = 0;
-        d.obj = &root;
+        d.obj = rootobj;
         d.port = nullptr;
         Log lg;
         lg.base = M.c();
+        lg.sugar = sugar;
         g_log = &lg;
-        root.use->dispatch(M.c(), d, base);
+        ports.dispatch(M.c(), d, base);
         g_log = nullptr;
-        out += "[" + lg.s + "]p" + show_port(d.port);
+        out += show_calls(lg) + "p" + final_port(lg, d.port);
     }
     return out;
 }
 
+static bool parse_sizes(const std::string &w, size_t &locsize, size_t &slack) {
+    size_t plus = w.find('+');
+    if (plus == std::string::npos) return false;
+    locsize = (size_t)atol(w.substr(0, plus).c_str());
+    slack = (size_t)atol(w.substr(plus + 1).c_str());
+    return true;
+}
+
 static std::string op_D(const std::vector<std::string> &w) {
     if (w.size() < 4) return "bad-op";
+    Ast ast;
+    size_t e = parse_ast(w[1], 0, ast);
+    if (e != w[1].size()) return "bad-op";
     TNode root;
     g_root = &root;
-    size_t e = parse_table(w[1], 0, root, "r");
-    if (e != w[1].size()) return "bad-op";
-    size_t locsize = (size_t)atol(w[2].c_str());
+    if (!build(ast, root, "r")) return "bad-op";
+    size_t locsize, slack;
+    if (!parse_sizes(w[2], locsize, slack)) return "bad-op";
     std::string out;
     std::istringstream is(w[3]);
     std::string tok;
@@ -267,7 +551,26 @@ static std::string op_D(const std::vector<std::string> &w) {
     while (std::getline(is, tok, ';')) {
         if (!first) out += "|";
         first = false;
-        out += one_msg(root, locsize, tok);
+        out += one_msg<rtosc::RtData>(*root.use, &root, false, locsize, slack, tok);
+    }
+    return out;
+}
+
+static std::string op_R(const std::vector<std::string> &w) {
+    if (w.size() < 4) return "bad-op";
+    if (!g_world) g_world = new SWorld;
+    std::string want = ports_token(STop::ports);
+    if (w[1] != want) return "bad-tree:" + want;
+    size_t locsize, slack;
+    if (!parse_sizes(w[2], locsize, slack)) return "bad-op";
+    std::string out;
+    std::istringstream is(w[3]);
+    std::string tok;
+    bool first = true;
+    while (std::getline(is, tok, ';')) {
+        if (!first) out += "|";
+        first = false;
+        out += one_msg<SugarData>(STop::ports, &g_world->top, true, locsize, slack, tok);
     }
     return out;
 }
@@ -276,6 +579,7 @@ static std::string step(const std::string &line) {
     auto w = words(line);
     if (w.empty()) return "bad-op";
     if (w[0] == "D") return op_D(w);
+    if (w[0] == "R") return op_R(w);
     return "bad-op";
 }
 int main(int argc, char **argv) { return run_lines(argc, argv, step); }
